@@ -264,19 +264,113 @@ Proof.
     + intros s. destruct (has_child s p); cbn; apply same_outside_refl.
 Qed.
 
-Definition cop_path (o : cop) : str := match o with CMkdir p | CRemove p | CStat p => p end.
+(* the paths an operation names; its read region is the union of their regions, it writes only those paths *)
+Definition cop_paths (o : cop) : list str :=
+  match o with CMkdir p | CRemove p | CStat p | CChmod p => [p] | CRename a b => [a; b] end.
+Definition paths_R (ps : list str) : region := fun k => existsb (fun p => in_region p k) ps.
+Definition paths_W (ps : list str) : region := fun k => existsb (fun p => wr_region p k) ps.
 
-Lemma local_prog_of o : local (in_region (cop_path o)) (wr_region (cop_path o)) (prog_of o).
-Proof. destruct o; cbn; [apply local_mkdir|apply local_remove|apply local_stat]. Qed.
+Lemma paths_W_sub_R ps : subregion (paths_W ps) (paths_R ps).
+Proof.
+  intros k K. unfold paths_W in K. apply existsb_exists in K. destruct K as (p & I & K).
+  apply existsb_exists. exists p. split; [exact I|apply wr_sub_region; exact K].
+Qed.
+
+Lemma paths_R_in ps p k : In p ps -> in_region p k = true -> paths_R ps k = true.
+Proof. intros I K. apply existsb_exists. exists p. split; assumption. Qed.
+Lemma paths_W_in ps p k : In p ps -> wr_region p k = true -> paths_W ps k = true.
+Proof. intros I K. apply existsb_exists. exists p. split; assumption. Qed.
+
+Lemma local_single p prog : local (in_region p) (wr_region p) prog -> local (paths_R [p]) (paths_W [p]) prog.
+Proof.
+  intros L. eapply local_mono; [| |apply paths_W_sub_R|exact L].
+  - intros k K. eapply paths_R_in; [left; reflexivity|exact K].
+  - intros k K. eapply paths_W_in; [left; reflexivity|exact K].
+Qed.
+
+Lemma local_chmod p : local (in_region p) (wr_region p) (p_chmod p).
+Proof.
+  unfold p_chmod. apply local_getfile.
+  - apply wr_sub_region.
+  - apply in_reads_region. left. reflexivity.
+  - intros d I. apply in_reads_region. right. apply in_or_app. left. exact I.
+  - intros [d|c]; [apply local_set_step|constructor].
+Qed.
+
+(* the one read-write transaction of a file Rename *)
+Lemma local_move_step R o n :
+  o <> n -> local R (paths_W [o; n]) (CStep (fun s => (cdel (cset s n false) o, CDone COk))).
+Proof.
+  intros N. apply (local_write R (paths_W [o; n]) _ (fun s => cdel (cset s n false) o) COk).
+  - reflexivity.
+  - intros s s' _ k K. unfold paths_W, wr_region in K. cbn in K.
+    destruct (str_eqb k o) eqn:Eo.
+    + apply str_eqb_eq in Eo. subst k. rewrite !cget_cdel_eq. reflexivity.
+    + destruct (str_eqb k n) eqn:En; [|discriminate].
+      apply str_eqb_eq in En. subst k.
+      assert (n <> o) by congruence.
+      rewrite !cget_cdel_neq by assumption. rewrite !cget_cset_eq. reflexivity.
+  - intros s k K. unfold paths_W, wr_region in K. cbn in K.
+    destruct (str_eqb k o) eqn:Eo; [discriminate|]. destruct (str_eqb k n) eqn:En; [discriminate|].
+    assert (k <> o) by (intros ->; rewrite str_eqb_refl in Eo; discriminate).
+    assert (k <> n) by (intros ->; rewrite str_eqb_refl in En; discriminate).
+    rewrite cget_cdel_neq by assumption. rewrite cget_cset_neq by assumption. reflexivity.
+Qed.
+
+Lemma local_rename o n : local (paths_R [o; n]) (paths_W [o; n]) (p_rename o n).
+Proof.
+  set (R := paths_R [o; n]). set (W := paths_W [o; n]).
+  assert (WR : subregion W R) by apply paths_W_sub_R.
+  assert (Ro : forall k, in_region o k = true -> R k = true) by (intros k K; eapply paths_R_in; [left; reflexivity|exact K]).
+  assert (Rn : forall k, in_region n k = true -> R k = true)
+    by (intros k K; eapply paths_R_in; [right; left; reflexivity|exact K]).
+  assert (LookNew : local R W
+     (getfile n (fun r3 => match r3 with
+                           | inl true => CDone (CErr EEXIST)
+                           | inl false | inr ENOENT =>
+                             if str_eqb o n then CDone COk
+                             else CStep (fun s => (cdel (cset s n false) o, CDone COk))
+                           | inr c => CDone (CErr c)
+                           end))).
+  { apply local_getfile.
+    - exact WR.
+    - apply Rn. apply in_reads_region. left. reflexivity.
+    - intros d I. apply Rn. apply in_reads_region. right. apply in_or_app. left. exact I.
+    - assert (Mv : local R W (if str_eqb o n then CDone COk else CStep (fun s => (cdel (cset s n false) o, CDone COk)))).
+      { destruct (str_eqb o n) eqn:E; [constructor|]. apply local_move_step.
+        intros ->. rewrite str_eqb_refl in E. discriminate. }
+      intros [[|]|c]; [constructor|exact Mv|]. destruct c; try constructor. exact Mv. }
+  unfold p_rename. apply local_getfile.
+  - exact WR.
+  - apply Ro. apply in_reads_region. left. reflexivity.
+  - intros d I. apply Ro. apply in_reads_region. right. apply in_or_app. left. exact I.
+  - intros [[|]|c]; [constructor| |constructor].
+    destruct (str_eqb o n || str_eqb n dot); [exact LookNew|].
+    apply local_getfile.
+    + exact WR.
+    + apply Rn. apply in_reads_region. right. apply in_or_app. right. left. reflexivity.
+    + intros d I. apply Rn. apply in_reads_region. right. apply in_or_app. right. right. exact I.
+    + intros [[|]|c]; [exact LookNew|constructor|constructor].
+Qed.
+
+Lemma local_prog_of o : local (paths_R (cop_paths o)) (paths_W (cop_paths o)) (prog_of o).
+Proof.
+  destruct o; cbn [prog_of cop_paths].
+  - apply local_single, local_mkdir.
+  - apply local_single, local_remove.
+  - apply local_single, local_stat.
+  - apply local_single, local_chmod.
+  - apply local_rename.
+Qed.
 
 (* ---------- goroutines ---------- *)
-Definition ops_R (ops : list cop) : region := fun k => existsb (fun o => in_region (cop_path o) k) ops.
-Definition ops_W (ops : list cop) : region := fun k => existsb (fun o => wr_region (cop_path o) k) ops.
+Definition ops_R (ops : list cop) : region := fun k => existsb (fun o => paths_R (cop_paths o) k) ops.
+Definition ops_W (ops : list cop) : region := fun k => existsb (fun o => paths_W (cop_paths o) k) ops.
 
 Lemma ops_W_sub_R ops : subregion (ops_W ops) (ops_R ops).
 Proof.
   intros k K. unfold ops_W in K. apply existsb_exists in K. destruct K as (o & I & K).
-  apply existsb_exists. exists o. split; [exact I|apply wr_sub_region; exact K].
+  apply existsb_exists. exists o. split; [exact I|apply paths_W_sub_R; exact K].
 Qed.
 
 Lemma local_op_in ops o : In o ops -> local (ops_R ops) (ops_W ops) (prog_of o).
@@ -575,7 +669,7 @@ Qed.
 
 (* ---------- "unrelated" decided, and derived from the shape of the paths ---------- *)
 Definition unrelated_pair_b (pi pj : list cop) : bool :=
-  forallb (fun o => negb (ops_R pj (cop_path o))) pi.
+  forallb (fun o => forallb (fun p => negb (ops_R pj p)) (cop_paths o)) pi.
 
 Fixpoint unrelated_progs_b_aux (before : list (list cop)) (l : list (list cop)) : bool :=
   match l with
@@ -588,8 +682,10 @@ Fixpoint unrelated_progs_b_aux (before : list (list cop)) (l : list (list cop)) 
 Lemma unrelated_pair_b_sound pi pj : unrelated_pair_b pi pj = true -> forall k, ops_W pi k = true -> ops_R pj k = false.
 Proof.
   intros H k K. unfold ops_W in K. apply existsb_exists in K. destruct K as (o & I & K).
+  unfold paths_W in K. apply existsb_exists in K. destruct K as (p & Ip & K).
   unfold wr_region in K. apply str_eqb_eq in K. subst k.
   unfold unrelated_pair_b in H. rewrite forallb_forall in H. specialize (H o I).
+  rewrite forallb_forall in H. specialize (H p Ip).
   apply Bool.negb_true_iff in H. exact H.
 Qed.
 
@@ -663,24 +759,26 @@ Proof.
   - right. right. apply is_child_below; [apply elems_ok_not_dot; exact Ep|exact H].
 Qed.
 
-Definition paths_ok (ops : list cop) : Prop := forall o, In o ops -> elems_ok (cop_path o).
+Definition paths_ok (ops : list cop) : Prop := forall o p, In o ops -> In p (cop_paths o) -> elems_ok p.
 
 (* programs whose paths are real-name paths and pairwise apart (neither an ancestor-or-self of the other) across goroutines *)
 Theorem apart_unrelated progs :
   (forall ops, In ops progs -> paths_ok ops) ->
-  (forall i j pi pj oi oj, i <> j -> nth_error progs i = Some pi -> nth_error progs j = Some pj ->
-     In oi pi -> In oj pj -> apart (cop_path oi) (cop_path oj)) ->
+  (forall i j pi pj oi oj a b, i <> j -> nth_error progs i = Some pi -> nth_error progs j = Some pj ->
+     In oi pi -> In oj pj -> In a (cop_paths oi) -> In b (cop_paths oj) -> apart a b) ->
   unrelated_progs progs.
 Proof.
   intros OK AP i j pi pj N Ei Ej k K.
   unfold ops_W in K. apply existsb_exists in K. destruct K as (oi & Ii & K).
+  unfold paths_W in K. apply existsb_exists in K. destruct K as (a & Ia & K).
   unfold wr_region in K. apply str_eqb_eq in K. subst k.
-  destruct (ops_R pj (cop_path oi)) eqn:R; [|reflexivity]. exfalso.
+  destruct (ops_R pj a) eqn:R; [|reflexivity]. exfalso.
   unfold ops_R in R. apply existsb_exists in R. destruct R as (oj & Ij & R).
-  destruct (AP i j pi pj oi oj N Ei Ej Ii Ij) as [A1 A2].
-  destruct (in_region_related (cop_path oj) (cop_path oi)) as [H|H]; try assumption.
-  - apply (OK pj (nth_error_In _ _ Ej) oj Ij).
-  - apply (OK pi (nth_error_In _ _ Ei) oi Ii).
+  unfold paths_R in R. apply existsb_exists in R. destruct R as (b & Ib & R).
+  destruct (AP i j pi pj oi oj a b N Ei Ej Ii Ij Ia Ib) as [A1 A2].
+  destruct (in_region_related b a) as [H|H]; try assumption.
+  - apply (OK pj (nth_error_In _ _ Ej) oj b Ij Ib).
+  - apply (OK pi (nth_error_In _ _ Ei) oi a Ii Ia).
   - exact (A1 H).
   - exact (A2 H).
 Qed.
@@ -778,12 +876,12 @@ Corollary sequential_order_exists_progs progs s :
 Proof.
   apply (sequential_order_exists _ _ s eq_refl).
   intros g I. apply in_map_iff in I. destruct I as (ops & <- & _). split; [reflexivity|].
-  intros o _. exists (in_region (cop_path o)), (wr_region (cop_path o)). apply local_prog_of.
+  intros o _. exists (paths_R (cop_paths o)), (paths_W (cop_paths o)). apply local_prog_of.
 Qed.
 
 (* ---------- a concrete instance: premises hold, outcomes exist ---------- *)
 Definition demo_progs : list (list cop) :=
-  [[CMkdir (S "d/x"); CRemove (S "d/x")]; [CRemove (S "e/g")]; [CMkdir (S "x")]].
+  [[CMkdir (S "d/x"); CRemove (S "d/x")]; [CRename (S "e/g") (S "e/h")]; [CChmod (S "f")]].
 Definition demo_store : cstore :=
   [(dot, true); (S "d", true); (S "f", false); (S "e", true); (S "e/g", false)].
 
